@@ -14,7 +14,7 @@ from core import VERIF, quiet, repo_tree_hash
 
 quiet()
 CACHE = os.path.join(VERIF, ".cache")
-HARNESS_VERSION = "7"
+HARNESS_VERSION = "8"
 
 SPECIALS = [
     # redox pairs that reach the reagent templates, halide losses, ions, heavy elements, markers, peroxides
@@ -153,6 +153,7 @@ CONFIGS = {
     "columns-rxn-rid": ({"n_jobs": 4, "reaction_col": "rxn", "id_col": "rid", "batch_size": 9}, {}, "dict"),
     "one-worker-batches-of-3": ({"n_jobs": 1, "batch_size": 3}, {}, "str"),
     "threshold-0.5": ({"n_jobs": 4, "confidence_threshold": 0.5}, {}, "str"),
+    "columns-rxn-rid-threshold-0.9": ({"n_jobs": 2, "reaction_col": "rxn", "id_col": "rid", "confidence_threshold": 0.9, "batch_size": 11}, {}, "dict"),
     "keep-atom-maps": ({"n_jobs": 4}, {"remove_aam": False}, "mapped"),
 }
 
@@ -207,6 +208,11 @@ def each_config(ctx, fn, with_kept_maps=True):
         if tr["out"] is None:
             ctx.violation("run-raises-under-configuration", {"configuration": name, "arguments": CONFIGS[name][0], "attributes": CONFIGS[name][1]},
                           str(tr["error"]), "synrbl/balancing.py:Balancer.rebalance")
+            continue
+        if len(tr["out"]) != len(tr["inputs"]):
+            # rows (a whole batch, typically) silently dropped: no statement about rows can be evaluated on what is missing
+            ctx.violation("rows-lost-under-configuration", {"configuration": name, "arguments": CONFIGS[name][0], "attributes": CONFIGS[name][1]},
+                          "%d rows returned for %d inputs" % (len(tr["out"]), len(tr["inputs"])), "synrbl/balancing.py:__rebalance_batch")
             continue
         fn(name, tr)
 
